@@ -72,10 +72,10 @@ PROPS = {
     'C08': dict(obligations=lambda: P('SqProps.C08') + P('SqProps.C08Rat') + T('SqTie.LexRules', 'lexrules_tie'),
                 slices=['num'], monitors=['c08'],
                 pending=['pow / round / quantize / the Decimal builtins against ℚ (+ - * / and the comparisons are: arithmetic_is_correctly_rounded, comparisons_are_rational_order in SqProps/C08Rat.lean)']),
-    'C09': dict(obligations=lambda: P('SqProps.C09') + SHAPE_OPS,
+    'C09': dict(obligations=lambda: P('SqProps.C09') + P('SqProps.C09Den') + SHAPE_OPS,
                 slices=['probe'], monitors=['c09'],
-                pending=['callbacks whose application RAISES inside a higher-order call (the returning case is hof_big_step; the raising case is the one-transition lemma raise_skips_*)']),
-    'C10': dict(obligations=lambda: P('SqProps.C10') + P('SqProps.C10Run'),
+                pending=[]),
+    'C10': dict(obligations=lambda: P('SqProps.C10') + P('SqProps.C10Run') + P('SqProps.C10Den'),
                 slices=['scope', 'session_scope'], monitors=['c10'],
                 pending=['the hypothesis of covered_scopes_survive_any_program — no value of the host world mentions the scope dictionary — is world-relative (a host that stores its names mapping inside itself is outside it); scope_balanced over all runs; for mutator-free programs assignments_in_calls_leave_covered_scopes needs no such hypothesis']),
     'C11': dict(obligations=lambda: P('SqProps.C11') + SHAPE_RESETS,
@@ -83,7 +83,7 @@ PROPS = {
                 pending=['histories that contain earlier EVALS: independent up to the D9 finding (a stored lambda charges its creator VM); proved for histories of parse / list_names calls of any outcome, and for cached parsers via C17.cache_transparent']),
     'C12': dict(obligations=lambda: P('SqProps.C12') + P('SqProps.C12Assign'),
                 slices=['alias'], monitors=['c12'],
-                pending=['the aliasing STRUCTURE of the copy (two paths to one object stay two paths to one object: the memo is a function, copy_walk_invariant) is not stated as a theorem of its own; content (stored_copy_has_same_content: equal unfoldings at every depth) and independence (stored_copy_is_independent) are proved']),
+                pending=['Closed / KeysPlain (no dangling addresses, hashable dict keys) are hypotheses about the heap, shown for examples, not proved as run invariants']),
     'C13': dict(obligations=lambda: P('SqProps.C13') + P('SqProps.C13All') + P('SqProps.C13Run') + TIE_FN,
                 slices=['builtin_args'], monitors=['c13'],
                 pending=['which of the mentioned objects a mutator changes (its receiver; the list c[k] for c[k] += ..) is stated per table entry (InvSep.mod_*), over whole runs as: only top scopes and objects some value mentions (step_sep, unmentioned_object_unchanged); the mutator-free case changes nothing (quiet_program_changes_no_host_object)']),
@@ -92,7 +92,7 @@ PROPS = {
                 pending=['the value copies made by `c[k] = v` (deep copy before the store) composed with ops_refine_list; slices of lists; dict and list refinement are proved over all operation sequences']),
     'C15': dict(obligations=lambda: P('SqProps.C15') + TIE_LEX + TIE_GRAM + TIE_TOK,
                 slices=['layout'], monitors=['c15'],
-                pending=['comments, CRLF and line breaks inside brackets at the CHARACTER level (their token-level statements, and extra blanks between tokens at the character level — extra_blank_between_tokens_same_program — are proved)']),
+                pending=['trailing commas / redundant parentheses / the three call spellings at the CHARACTER level (proved at the token level through parse_iff); at the character level: extra blanks between tokens, comments at line ends, line breaks (LF, CRLF) inside brackets are proved over whole texts']),
     'C16': dict(obligations=lambda: P('SqProps.C16') + TIE_TOK,
                 slices=['malformed'], monitors=['c16'],
                 pending=[]),
@@ -115,7 +115,7 @@ for _k, _v in PROPS.items():
 
 
 # properties whose outcome the reference semantics fix uniquely (DESIGN.md section 4): which differences count
-REFERENCE = {'C06': 'any', 'C07': 'c07', 'C08': 'value', 'C14': 'value', 'C15': 'any', 'C18': 'any', 'C20': 'any'}
+REFERENCE = {'C01': 'c01', 'C06': 'any', 'C09': 'c09', 'C07': 'c07', 'C08': 'value', 'C14': 'value', 'C15': 'any', 'C18': 'any', 'C20': 'any'}
 
 
 def _head(a):
@@ -131,6 +131,19 @@ def reference_failure(kind, d):
     if kind == 'any':
         return True
     ha, hb = _head(a), _head(b)
+    if kind == 'c01':
+        # the reference semantics count the operations a program needs (ops_counted: one per node evaluation): a run that ends in
+        # the ops-limit error on one side and not on the other is a run that returned normally though it needed N operations,
+        # or was cut short before them
+        return ha.startswith('err opslimit') != hb.startswith('err opslimit')
+    if kind == 'c09':
+        # the observables the property names: the ordered log of the probe calls and the value returned.  The reference semantics
+        # are proved to evaluate lazily / exactly once / left to right (SqProps.C09*), so a program on which the probe log or
+        # the value differs is a failing input; runs cut short by the operation budget say nothing about order
+        if ha.startswith('err opslimit') or hb.startswith('err opslimit'):
+            return False
+        seg = lambda x: [t for t in x.split(' ;;') if t.strip().startswith('log')]
+        return seg(a) != seg(b) or (ha.startswith('ok') and hb.startswith('ok') and ha != hb)
     if ha.startswith('ok') or hb.startswith('ok'):
         if kind == 'value':
             return ha != hb
